@@ -111,7 +111,13 @@ func (m *Machine) execMapOps(s *State, f *Frame, in ssa.Instruction) ([]*State, 
 		return nil, true
 	case *ssa.MakeChan:
 		sz := sc(s.get(x.Size))
-		id := s.alloc(ChanV{cap: int(sz.cv)})
+		cp := int(sz.cv)
+		if cp == 0 {
+			// unbuffered channels are modelled with one slot: the sender does not wait for the hand-off
+			m.stubs["unbuffered channel modelled as 1-buffered (rendezvous not modelled)"]++
+			cp = 1
+		}
+		id := s.alloc(ChanV{cap: cp})
 		f.env[x] = Ptr{obj: id}
 		return nil, true
 	case *ssa.MapUpdate:
